@@ -54,7 +54,10 @@ def cases(tier, seed):
         for L in range(0, n + 1):
             ends = endings if tier == 'thorough' else [endings[(L + seed) % 3]]
             for e in ends:
-                yield dict(convo=name, cut=L, ending=e, kill=None, seed=seed)
+                # the partial PDU before the cut arrives in one piece or dribbles in (header
+                # first, then a bit of the body, then nothing)
+                for dr in ([False, True] if tier == 'thorough' else [bool((L + seed) % 2)]):
+                    yield dict(convo=name, cut=L, ending=e, kill=None, dribble=dr, seed=seed)
         for k in range(8):
             yield dict(convo=name, cut=None, ending='rst', kill=None, rst_at_send=k, seed=seed)
         if corp[name]['role'] == 'requestor':
@@ -79,7 +82,7 @@ def run_case(case):
     name = case['convo']
 
     def v(rule, detail=''):
-        viol.append({'sig': ('C13 %s' % rule) if rule.startswith('loop-died') else
+        viol.append({'sig': ('C13 %s' % rule) if rule.startswith(('loop-died', 'kill-', 'loop-still')) else
                      'C13 %s convo=%s' % (rule, name),
                      'detail': '%s\ncase %r\nstate %s sock_gone %s blocked %r\nloop tb: %s' % (
                          detail, case, rig.state(), rig.sock_gone(), rig.sim.blocked_report(),
@@ -133,7 +136,15 @@ def run_case(case):
                     if cut is not None and delivered + len(pdu) > cut:
                         part = pdu[:cut - delivered]
                         if part:
-                            rig.peer_bytes(part)
+                            if case.get('dribble') and len(part) > 7:
+                                k = 6 + (len(part) - 6) // 2
+                                rig.peer_bytes(part[:6])
+                                rig.advance(0.06)
+                                rig.peer_bytes(part[6:k])
+                                rig.advance(0.06)
+                                rig.peer_bytes(part[k:])
+                            else:
+                                rig.peer_bytes(part)
                             delivered += len(part)
                         ended = True
                         break
